@@ -190,10 +190,12 @@ def shard(shard, nshards, rng, tier, extra):
         route = rng.choice(S.ROUTES)
         cases.append({'s': s, 'nw': nw, 'nf': nf, 'r': rng.choice(RMODES), 'o': rng.choice(OMODES), 'carrier': carrier, 'route': route,
                       'vals': vals, 'setmode': rng.choice(['slice', 'each', 'fancy', 'view'])})
+    for c_ in cases:
+        if rng.random() < 0.1: c_['ack'] = True      # (an acknowledging callback - reset() inside the event - on the object: what is stored does not depend on it)
     check_cases(cases, res, 'B:random-formats-carriers-routes')
     # ---- (C) huge finite floats under saturate, n_frac >= 0 (scalar floats)
     cases = []
-    for _ in range((300 if tier == 'quick' else 6000) // nshards):
+    for _ in range((900 if tier == 'quick' else 6000) // nshards):
         s, nw, nf = S.random_format(rng)
         if nf < 0: nf = -nf
         mag = rng.choice([2.0**63, 2.0**64, 2.0**65, 1e30, 1e100, 1.7e308, 2.0**1023, rng.uniform(1, 2) * 2.0**rng.randint(53, 1023)])
@@ -202,7 +204,7 @@ def shard(shard, nshards, rng, tier, extra):
     check_cases(cases, res, 'C:huge-floats-saturate')
     # ---- (D) far-out-of-range floats: |v*2^n_frac| in [2^50, 2^62), beyond float64's integer precision, both overflow modes
     cases = []
-    for _ in range((1200 if tier == 'quick' else 30000) // nshards):
+    for _ in range((3600 if tier == 'quick' else 30000) // nshards):
         s, nw, nf = S.random_format(rng)
         if rng.random() < 0.5: nw = rng.randint(1, 12)
         vals = []
@@ -220,7 +222,7 @@ def shard(shard, nshards, rng, tier, extra):
     # ---- (D2) beyond the stated |v*2^n_frac| < 2^62: floats whose scaled value lies in [2^62, 2^70) under WRAP (the period law of C03
     # speaks of any multiple of the modulus); compared with the Spec only (the model's int64 cast is undefined there)
     cases = []
-    for _ in range((300 if tier == 'quick' else 8000) // nshards):
+    for _ in range((900 if tier == 'quick' else 8000) // nshards):
         s, nw, nf = S.random_format(rng)
         if nf < 10: continue
         vals = []
@@ -234,7 +236,7 @@ def shard(shard, nshards, rng, tier, extra):
     check_cases(cases, res, 'D2:wrap-beyond-2^62', huge=True, keep_array=True)
     # ---- (E) float arrays mixing a huge element (>= 2^64 in magnitude) with fractional ones, under saturate, n_frac >= 0
     cases = []
-    for _ in range((400 if tier == 'quick' else 8000) // nshards):
+    for _ in range((1200 if tier == 'quick' else 8000) // nshards):
         s, nw, nf = S.random_format(rng)
         if nf < 0: nf = -nf
         vals = [float(S.as_number(v)) for v in S.boundary_values(rng, s, nw, nf, rng.choice([1, 2, 3]))]
@@ -245,7 +247,7 @@ def shard(shard, nshards, rng, tier, extra):
     check_cases(cases, res, 'E:huge-mixed-with-fractional', keep_array=True)
     # ---- (T) tiny floats into formats with n_frac < 0: v * 2^n_frac falls below the smallest subnormal double
     cases = []
-    for _ in range((300 if tier == 'quick' else 6000) // nshards):
+    for _ in range((900 if tier == 'quick' else 6000) // nshards):
         s, nw, nf = S.random_format(rng); nf = -rng.randint(1, 8)
         vals = [rng.choice([1, -1]) * rng.choice([5e-324, 2.0 ** -1074, 2.0 ** -1070, 2.0 ** rng.randint(-1074, -1060), 3 * 2.0 ** -1074]) for _k in range(rng.choice([1, 2]))]
         if not s: vals = [abs(v) if rng.random() < 0.7 else v for v in vals]
@@ -256,7 +258,7 @@ def shard(shard, nshards, rng, tier, extra):
     check_cases(cases, res, 'T:tiny-floats-negative-n_frac', huge=False, keep_array=True)
     # ---- (L) longdouble carriers: a double at or next to a rounding boundary, plus or minus a few units of its 60th..63rd bit
     cases = []
-    for _ in range((300 if tier == 'quick' else 6000) // nshards):
+    for _ in range((900 if tier == 'quick' else 6000) // nshards):
         s, nw, nf = S.random_format(rng)
         v = S.boundary_values(rng, s, nw, nf, 1)[0]
         if v == 0 or not S.is_double(v): continue
@@ -266,14 +268,14 @@ def shard(shard, nshards, rng, tier, extra):
                       'carrier': rng.choice(['scalar', 'scalar', 'arr0d', 'arr1', 'list', 'cscalar', 'carr1', 'clist']), 'route': rng.choice(['ctor', 'call', 'set_val'])})
     run_longdouble(cases, res)
     cases = []
-    for _ in range((80 if tier == 'quick' else 2000) // nshards + 1):
+    for _ in range((240 if tier == 'quick' else 2000) // nshards + 1):
         s_, nw, nf = S.random_format(rng)
         cases.append({'bools': [rng.random() < 0.6 for _k in range(rng.choice([1, 2, 3]))], 'carrier': rng.choice(['pybool', 'npbool', 'listbool', 'arrbool']), 'route': rng.choice(['ctor', 'call', 'set_val']),
                       's': s_, 'nw': nw, 'nf': nf, 'r': rng.choice(RMODES), 'o': rng.choice(OMODES)})
     run_bool(cases, res)
     # ---- (X) complex inputs: each component on its own
     cases = []
-    for _ in range((800 if tier == 'quick' else 20000) // nshards):
+    for _ in range((2400 if tier == 'quick' else 20000) // nshards):
         s, nw, nf = S.random_format(rng)
         k = rng.choice([1, 1, 2, 3])
         re = [float(S.as_number(v)) for v in S.boundary_values(rng, s, nw, nf, k)]; im = [float(S.as_number(v)) for v in S.boundary_values(rng, s, nw, nf, k)]
